@@ -388,6 +388,7 @@ def basis_dtype_rule(chk, repo, clause):
     fbas = repo.func('zernike.zernike_basis')
     _, paths, _ = analyse(repo, fbas)
     flt_ok, det_f, n_alloc = True, '', 0
+    shape_bad = []
     for p in returns(paths):
         for e in p.writes():
             if e.data.get('how') == 'setitem' and e.in_loop:
@@ -405,6 +406,15 @@ def basis_dtype_rule(chk, repo, clause):
                                                        ("('builtin', 'float')", 'float64', 'float', 'complex128', "('builtin', 'complex')"))
                 if not floatish:
                     flt_ok, det_f = False, f'basis allocated as {nf.fmt_atom(root)[:120]}: the modes are cast to that type on assignment'
+                # one plane per mode, each with the shape of the mask - rows first
+                shp_ = root[2][0] if root[2] else None
+                if isinstance(shp_, Tup) and len(shp_) >= 2:
+                    ms_ = nf.attr(S('mask'), 'shape')
+                    tail_ = list(shp_.items[-2:])
+                    if tail_ == [nf.index(ms_, C(1)), nf.index(ms_, C(0))]:
+                        shape_bad.append(f'basis allocated as {nf.fmt_atom(root)[:100]}: planes of shape (columns, rows) of the mask')
+    chk.ob(clause, 'U-shape', fbas.key, 'each plane of the basis has the shape of the mask (rows, columns)', not shape_bad if n_alloc else None,
+           '; '.join(shape_bad[:1]), fbas.loc())
     chk.ob(clause, 'T-dtype', fbas.key, 'the basis array is a float array whatever the type of the mask',
            (flt_ok and n_alloc > 0) if (n_alloc > 0 or not flt_ok) else None, det_f or f'{n_alloc} allocation(s)', fbas.loc())
 
